@@ -260,6 +260,7 @@ def items_C06(tier, seed, P):
     its = graph_items('C06', tier, seed, {'C06'}, wextras=True, with_extra_drops=True, noop=True) + mult_items('C06', tier, seed, {'C06'}, wextras=True) + history_items('C06', tier, seed, {'C06'})
     # Weak handles stored inside values (counts seen through Rc::weak_count / Weak::*_count after every step)
     its += weak_graph_items('C06', tier, seed, {'C06'}, opts={'panics_ok': True}, dtor_upgrades=False, one_weak=True)
+    R = lambda i, j: (i, j, True, False)
     # identity: all handles to an object agree on ptr_eq for its whole life (kept clones compared after every step)
     for (n, e, nm) in [(2, [R(0, 1), R(1, 0)], 'ring2'), (2, [R(0, 1)], 'owner-target'), (3, F.named_shapes(3)['ring2+leaf'], 'ring2+leaf')]:
         base = F.build_ops(n, e, extras=True)
@@ -756,6 +757,24 @@ def items_C11(tier, seed, P):
                 items.append(dict(prop='C11', name='%s panic@%d drops=%s' % (nm, k, ''.join('%s%d' % s for s in seq)), script={'ops': ops}, sym=True,
                                   oracles={'C11', 'C01', 'C02', 'C05'}, accept_props=['C11', 'C01', 'C02', 'C05'], relabel=True, ub_prop='C11',
                                   opts={}, layouts=std_layouts(n, tier, seed)[:3 if tier == 'quick' else 6]))
+    # make_mut on the last outside handle of a group (value cloned into a fresh allocation, old handle released inside make_mut):
+    # the release collects the group and one destructor panics; afterwards the caller's handle must be the fresh copy
+    for (n, e, nm) in [(2, [R(0, 1), R(1, 0)], 'ring2'), (3, F.named_shapes(3)['ring3'], 'ring3'), (1, [(0, 0, True, False)], 'selfclone1')]:
+        for k in range(n):
+            for mode in ('unlinked', 'linked'):
+                ops = F.build_ops(n, e, extras=True) + [{'op': 'on_drop_panic', 'obj': k}, {'op': 'clone_mode', 'mode': mode}]
+                for i in range(n):
+                    ops.append({'op': 'downgrade', 'h': H(i), 'as': 'ow%d' % i})
+                for i in range(1, n):
+                    ops.append({'op': 'catch', 'do': [{'op': 'drop', 'h': H(i)}]})
+                ops.append({'op': 'catch', 'do': [{'op': 'make_mut', 'h': H(0)}]})
+                ops += [{'op': 'deref', 'h': H(0)}, {'op': 'strong_count', 'h': H(0)}, {'op': 'downgrade', 'h': H(0), 'as': 'nw'}, {'op': 'catch', 'do': [{'op': 'upgrade', 'w': 'nw'}]}]
+                for j in range(n):
+                    ops += [{'op': 'catch', 'do': [{'op': 'upgrade', 'w': 'ow%d' % j}]}, {'op': 'w_strong_count', 'w': 'ow%d' % j}]
+                ops.append({'op': 'catch', 'do': [{'op': 'drop', 'h': H(0)}]})
+                items.append(dict(prop='C11', name='%s make_mut(%s clone) panic@%d' % (nm, mode, k), script={'ops': ops}, sym=True,
+                                  oracles={'C11', 'C01', 'C02', 'C05', 'C06'}, accept_props=['C11', 'C01', 'C02', 'C05', 'C06'], relabel=True, ub_prop='C11',
+                                  opts={'count_after_each': False}, layouts=std_layouts(n, tier, seed)[:3]))
     # a recorded handle given up without unadopt (documented as safe), whose target's destructor panics when it dies alone;
     # afterwards the former owner's group is orphaned
     for panic_obj in (2, 0):
@@ -1322,7 +1341,7 @@ def _c07_post_path(sc, out, res):
     if out[0] not in ('ok', 'violation', 'ub', 'panic', 'abort'):
         return
     E = sc.E
-    impl = [(i, t) for i, t in enumerate(sc.trace) if t[0] in ('dtor', 'ret', 'tclone')]
+    impl = [(i, t) for i, t in enumerate(sc.trace) if t[0] in ('dtor', 'ret', 'tclone', 'tcmp')]
     pending = [[]]
     nstd = 0
     while pending:
@@ -1351,7 +1370,7 @@ def _c07_post_path(sc, out, res):
             for (i, a), b in zip(impl, st):
                 if mismatch:
                     break
-                if a[0] != b[0] or (a[0] != 'ret' and a[1] != b[1]) or (a[0] == 'ret' and a[1] != b[1]):
+                if a[0] != b[0] or (a[0] != 'ret' and list(a[1:]) != list(b[1:])) or (a[0] == 'ret' and a[1] != b[1]):
                     mismatch = 'event %r where std has %r' % (a, b)
                     break
                 if a[0] == 'ret':
